@@ -305,6 +305,30 @@ StartNext(c, p, C) == LET s == StartRec(c, p, C) IN
   /\ cfg' = s.cfg /\ cands' = s.cands /\ prof0' = s.prof0 /\ sprof0' = s.sprof0 /\ scands' = s.scands /\ prof' = s.prof
   /\ cur' = s.cur /\ thr' = s.thr /\ stage' = s.stage /\ status' = s.status /\ plabel' = s.plabel /\ rounds' = s.rounds
 
+\* ------------------------------------------------------------------ probability labels (C17, C10, C03)
+SumOver(S, F(_)) == FoldSet(LAMBDA x, acc : RAdd(F(x), acc), R(0), S)
+(* the labels of all outcomes of the random draw enabled in the current state sum to one *)
+ProbSum ==
+  /\ (status = "running" /\ cfg.rule = "RandomDictator" /\ DOMAIN prof # {})
+        => SumOver(DictatorOutcomes(prof), LAMBDA o : DictatorProb(prof, o[1], o[2])) = R(1)
+  /\ (status = "running" /\ cfg.rule = "BoostedRandomDictator" /\ Cardinality(cur) > 1 /\ DOMAIN prof # {})
+        => LET q == <<1, Cardinality(cur) - 1>> IN
+           RAdd(RMul(RSub(R(1), q), SumOver(DictatorOutcomes(prof), LAMBDA o : DictatorProb(prof, o[1], o[2]))),
+                RMul(q, SumOver({x \in cur : LastR.scores[x][1] > 0}, LAMBDA w : SquaresProb(LastR.scores, cur, w)))) = R(1)
+  /\ (STVStage /\ Above # {} /\ cfg.xfer = "random" /\ cfg.simul)
+        => LET W == UNION Range(SelectSeq(Standing, LAMBDA g : g \subseteq Above)) IN
+           SumOver(AfterTransfer(prof, W, LastR.scores), LAMBDA o : o[2]) = R(1)
+  /\ (STVStage /\ Above = {} /\ Cardinality(cur) # SeatsLeft /\ cur # {})
+        => LET L == Standing[Len(Standing)]  sc == Fpv(sprof0, scands) IN
+           RMul(R(Cardinality(Resolutions(L, "first_place", sc))), TieProb(L, "first_place", sc)) = R(1)
+  /\ \A tb \in {"random", "borda", "first_place"} : \A T \in (SUBSET cur) \ {{}} :
+        (Cardinality(T) <= 3) => RMul(R(Cardinality(Resolutions(T, tb, TbScore(tb, prof, cur)))), TieProb(T, tb, TbScore(tb, prof, cur))) = R(1)
+(* C10: a step is random (label below one) only if the round it records carries a tiebreak -- except the *)
+(* rules / options that are random by request (random transfer, the dictators, PluralityVeto's voter order)  *)
+RandomByRequest == cfg.xfer = "random" \/ cfg.rule \in Dictators \cup {"PluralityVeto"}
+RandomOnlyWithTiebreak == [][(status \in {"running"} /\ plabel' # R(1) /\ ~RandomByRequest /\ Len(rounds') > Len(rounds))
+                               => rounds'[Len(rounds')].tiebreaks # {}]_vars
+
 \* ------------------------------------------------------------------ recorded findings as named predicates
 (* Each is a predicate on the state *before* the step the implementation gets wrong; known_findings.json refers *)
 (* to them by name (see DESIGN.md section 6).  They never weaken a property: they only label a rejection.        *)
@@ -317,8 +341,8 @@ KF_boosted_last == cfg.rule = "BoostedRandomDictator" /\ Cardinality(cur) = 1 /\
 KF_tiered_noballots == cfg.rule \in Tiered /\ DOMAIN prof = {} /\ status = "running"
 KF_noballots == DOMAIN prof0 = {}
 KF_veto_under == cfg.rule = "PluralityVeto" /\ Cardinality(cur) < cfg.m /\ status = "running"
-(* Alaska's constructor replays its STV stage (get_profile) and the replay re-draws random tiebreaks *)
-KF_alaska_replay == cfg.rule = "Alaska" /\ \E i \in 3..Len(rounds) : rounds[i].tiebreaks # {}
+(* Alaska's constructor replays its STV stage (get_profile) and the replay re-draws random tiebreaks / random transfers *)
+KF_alaska_replay == cfg.rule = "Alaska" /\ Len(rounds) >= 3 /\ (cfg.xfer = "random" \/ \E i \in 3..Len(rounds) : rounds[i].tiebreaks # {})
 KFlags == {n \in {"thr0", "shortpile", "overelect", "dictator_exhausted", "boosted_last", "tiered_noballots", "alaska_replay", "noballots", "veto_under"} :
              CASE n = "thr0" -> KF_thr0 [] n = "shortpile" -> KF_shortpile [] n = "overelect" -> KF_overelect
                [] n = "dictator_exhausted" -> KF_dictator_exhausted [] n = "boosted_last" -> KF_boosted_last
